@@ -28,3 +28,22 @@ package api
 //@ apply optCtor(Int64, OptionalInt64, int64)
 //@ apply optCtor(UInt64, OptionalUInt64, uint64)
 //@ apply optCtor(Bool, OptionalBool, bool)
+
+// ---------------------------------------------------------------------------
+// Plugin index and name (plugin.go)
+// ---------------------------------------------------------------------------
+//@ pure isDigit(c uint8) = 48 <= c && c <= 57
+//@ pure twoDigits(s string) = len(s) == 2 && isDigit(s[0]) && isDigit(s[1])
+//@ pure num2(s string) = (int(s[0]) - 48) * 10 + (int(s[1]) - 48)
+
+//@ func CheckPluginIndex
+//@   props C06 C17 C18
+//@   ensures [valid]   twoDigits(idx) ==> result == nil
+//@   ensures [invalid] !twoDigits(idx) ==> result != nil
+
+// For two-digit indices the string order used by sortPlugins is the numeric order.
+//@ lemma twoDigitOrder
+//@   props C06 C18
+//@   vars a string, b string
+//@   hyp  twoDigits(a) && twoDigits(b)
+//@   goal (a < b) <==> (num2(a) < num2(b))
